@@ -3,6 +3,8 @@ package main
 import (
 	"encoding/json"
 	"fmt"
+	"os"
+	"path/filepath"
 	"reflect"
 
 	cc "connectrpc.com/conformance/internal/app/connectconformance"
@@ -49,6 +51,13 @@ func init() {
 			}
 		}
 		return out
+	})
+	// corpus: the real embedded test suites (in.Suites is their abstraction, for the driver only)
+	gen.RegisterOp("c07", "corpus", func(_ *gen.Ctx, raw json.RawMessage) any {
+		in := gen.Into[c07In](raw)
+		first := cc.VerifC07CorpusLibrary(in.Cases, in.Mode)
+		again := cc.VerifC07CorpusLibrary(in.Cases, in.Mode)
+		return c07Out{VerifC07Dump: first, Stable: reflect.DeepEqual(first, again)}
 	})
 	gen.RegisterOp("c07", "parse", func(_ *gen.Ctx, raw json.RawMessage) any {
 		in := gen.Into[c07ParseIn](raw)
@@ -308,6 +317,36 @@ func runC07(c *gen.Ctx) error {
 		}
 	}
 	flush()
+	// the embedded corpus x the shipped configurations (thorough: also the reference configuration)
+	if suites, err := cc.VerifC07Corpus(); err != nil {
+		return fmt.Errorf("c07 corpus: %w", err)
+	} else {
+		cfgs := []struct {
+			file string
+			mode int
+		}{{"testing/grpc-impls-config.yaml", 1}, {"testing/grpc-impls-config.yaml", 2}, {"testing/grpc-web-client-impl-config.yaml", 1}, {"testing/grpc-web-server-impl-config.yaml", 2}}
+		if c.Thorough() && c.Seed < 1000 {
+			cfgs = append(cfgs, struct {
+				file string
+				mode int
+			}{"testing/reference-impls-config.yaml", 1}, struct {
+				file string
+				mode int
+			}{"testing/reference-impls-config.yaml", 2})
+		}
+		for _, cf := range cfgs {
+			data, err := os.ReadFile(filepath.Join(c.RepoDir, cf.file))
+			if err != nil {
+				return fmt.Errorf("c07 corpus: %w", err)
+			}
+			codes, class, raw := cc.VerifC06ParseConfig(data)
+			if class != "" {
+				return fmt.Errorf("c07 corpus: %s: %s %s", cf.file, class, raw)
+			}
+			c.Do("corpus", c07In{Suites: suites, Cases: codes, Mode: cf.mode})
+			e.Count("corpus:" + filepath.Base(cf.file))
+		}
+	}
 	// parseTestSuites validation (raw request / raw response only in the right mode)
 	nP := 600
 	if c.Thorough() {
